@@ -197,7 +197,7 @@ def wrap_scheduler(sim, scheduler, latency, hooks=None, hang_limit=12.0):
                     finally:
                         signal.setitimer(signal.ITIMER_REAL, 0)
                 except BaseException as e:
-                    sim.log("s.exc", m=name, trial=rec["trial"], exc=type(e).__name__, msg=str(e)[:300],
+                    sim.log("s.exc", m=name, trial=rec["trial"], exc=type(e).__name__, msg=clean(e)[:300],
                             where=_innermost_repo_frame(e))
                     raise
                 out = _suggestion(ret) if name == "suggest" else ret
@@ -222,6 +222,17 @@ def unwrap_scheduler(scheduler):
     for name in SCHED_METHODS + ["trials_checkpoints_can_be_removed"]:
         if name in scheduler.__dict__:
             del scheduler.__dict__[name]
+
+
+def clean(msg):
+    """Exception texts must not carry the (random) scratch directory into the event log."""
+    import os
+
+    root = os.environ.get("SYNETUNE_FOLDER")
+    msg = str(msg)
+    if root:
+        msg = msg.replace(root, "<scratch>")
+    return msg[:400]
 
 
 def _innermost_repo_frame(e):
@@ -266,7 +277,7 @@ def wrap_backend(sim, backend, latency, truth=None):
                 try:
                     ret = orig(*args, **kwargs)
                 except BaseException as e:
-                    sim.log("b.exc", m=name, exc=type(e).__name__, msg=str(e)[:300], where=_innermost_repo_frame(e),
+                    sim.log("b.exc", m=name, exc=type(e).__name__, msg=clean(e)[:300], where=_innermost_repo_frame(e),
                             trial=rec.get("trial"))
                     raise
                 out = None
